@@ -97,6 +97,19 @@ func genFactsSp(L *loader) (string, any, []string) {
 		}
 	}
 
+	// ---- consensus/state.go: the challenged leaf
+	if fd := L.funcs[pkg+".State.StorageProofLeafIndex"]; fd == nil {
+		f.fail("consensus.State.StorageProofLeafIndex not found")
+	} else {
+		f.defStr("leafIndexSig", f.params(fd.Type), "signature of State.StorageProofLeafIndex ("+L.pos(fd)+")")
+		f.defList("leafIndexBody", f.stmts(fd.Body), "top-level statements of State.StorageProofLeafIndex")
+	}
+	if fd := L.funcs[pkg+".State.StorageProofLeafHash"]; fd == nil {
+		f.fail("consensus.State.StorageProofLeafHash not found")
+	} else {
+		f.defList("leafHashBody", f.stmts(fd.Body), "top-level statements of State.StorageProofLeafHash ("+L.pos(fd)+")")
+	}
+
 	// ---- closures of validateFileContracts
 	fd := L.funcs[pkg+".validateFileContracts"]
 	if fd == nil {
